@@ -12,6 +12,50 @@ import os
 import sys
 
 
+class _SequentialiseParallelAssign(ast.NodeTransformer):
+    """`t1, t2 = v1, v2`  ->  `t1 = v1; t2 = v2`  when that is the same program: no later value reads an earlier target
+    (a swap stays a parallel assignment).  All analyses then see the statement forms they know."""
+
+    @staticmethod
+    def _reads(expr):
+        return {norm_text_raw(x) for x in ast.walk(expr) if isinstance(x, (ast.Name, ast.Attribute, ast.Subscript))}
+
+    def visit_Assign(self, node):
+        self.generic_visit(node)
+        if len(node.targets) != 1:
+            return node
+        t, v = node.targets[0], node.value
+        if not (isinstance(t, (ast.Tuple, ast.List)) and isinstance(v, (ast.Tuple, ast.List)) and len(t.elts) == len(v.elts) and len(t.elts) >= 2):
+            return node
+        if any(isinstance(e, ast.Starred) for e in list(t.elts) + list(v.elts)):
+            return node
+        if any(isinstance(e, (ast.Tuple, ast.List)) for e in t.elts):
+            return node
+        for i in range(len(t.elts)):
+            stored = {norm_text_raw(x) for x in ast.walk(t.elts[i]) if isinstance(x, (ast.Name, ast.Attribute, ast.Subscript)) and isinstance(getattr(x, "ctx", None), ast.Store)}
+            stored_names = {x.id for x in ast.walk(t.elts[i]) if isinstance(x, ast.Name)}
+            for j in range(i + 1, len(v.elts)):
+                reads = self._reads(v.elts[j])
+                read_names = {x.id for x in ast.walk(v.elts[j]) if isinstance(x, ast.Name)}
+                if stored & reads or (isinstance(t.elts[i], ast.Name) and stored_names & read_names):
+                    return node
+                if not isinstance(t.elts[i], ast.Name) and any(isinstance(x, ast.Call) for x in ast.walk(v.elts[j])):
+                    return node  # a call could observe the stored attribute / element
+        out = []
+        for te, ve in zip(t.elts, v.elts):
+            a = ast.Assign(targets=[te], value=ve)
+            ast.copy_location(a, node)
+            out.append(a)
+        return out
+
+
+def norm_text_raw(node):
+    try:
+        return ast.unparse(node)
+    except Exception:
+        return ast.dump(node)
+
+
 class AnalysisError(Exception):
     """The analysis cannot decide (vanished anchor, unmodelled construct...)."""
 
@@ -229,6 +273,8 @@ class Repo:
                     tree = ast.parse(src, filename=rel)
                 except SyntaxError as e:
                     raise AnalysisError("cannot parse %s: %s" % (rel, e))
+                tree = _SequentialiseParallelAssign().visit(tree)
+                ast.fix_missing_locations(tree)
                 modname = rel[:-3].replace("/", ".")
                 if modname.endswith(".__init__"):
                     modname = modname[: -len(".__init__")]
